@@ -459,7 +459,10 @@ class TokenizerModel:
                 arm.ops.append(("skip", stop, opp))
                 return
             if fn == "self.processEntityInAttribute":
-                arm.ops.append(("charref", "attribute", self.ce.eval(c.args[0], self.mod)))
+                # the additional allowed character; "<missing>" when the call does not pass one (judged by R14.6 / R14.7)
+                allowed = self.ce.eval(c.args[0], self.mod) if c.args else next(
+                    (self.ce.eval(k.value, self.mod) for k in c.keywords if k.arg == "allowedChar"), "<missing>")
+                arm.ops.append(("charref", "attribute", allowed))
                 return
             if fn == "self.consumeEntity":
                 arm.ops.append(("charref", "data", None))
